@@ -108,7 +108,7 @@ Feed(c) == /\ phase = "scan" /\ Len(text) < MaxLen /\ sc.err = "" /\ c \in Alpha
            /\ text' = Append(text, c) /\ sc' = Scan(sc, c)
            /\ UNCHANGED <<phase, ign, result>>
 FeedDigit == \E c \in Alphabet \cap (Digit \cup {"."}) : Feed(c)
-FeedSign == \E c \in Alphabet \cap (Sign \cup ExpLetter \cup {"A"}) : Feed(c)
+FeedSignOrLetter == \E c \in Alphabet \cap (Sign \cup ExpLetter \cup {"A"}) : Feed(c)
 FeedComma == Feed(",")
 FeedSpace == Feed("_")
 FeedTab == Feed("T")
@@ -154,7 +154,7 @@ Fit == /\ phase = "fit" /\ phase' = "done" /\ result' = Table
        /\ UNCHANGED <<ign, text, sc>>
 
 Init == phase = "scan" /\ ign \in IgnModes /\ text = <<>> /\ sc = S0 /\ result = <<>>
-Next == FeedDigit \/ FeedSign \/ FeedComma \/ FeedSpace \/ FeedTab \/ FeedHash \/ FeedNewline \/ Finish \/ Fit
+Next == FeedDigit \/ FeedSignOrLetter \/ FeedComma \/ FeedSpace \/ FeedTab \/ FeedHash \/ FeedNewline \/ Finish \/ Fit
 Spec == Init /\ [][Next]_vars
 
 \* ---------------------------------------------------------------- invariants
